@@ -887,12 +887,15 @@ STORE_MC = {
     "lookup": ("StoreMC.lookup.cfg", {"CallerSet": '{"k1", "k2"}'}, {"Steps": "{300000}", "Horizon": 600000}),
     "reads":  ("StoreMC.reads.cfg", {"Acts": '{"newstore", "refresh", "svc", "handle", "read", "lookup", "close", "tick"}', "CacheKinds": '{"undeclared"}'}, {}),
     "race":   ("StoreMC.race.cfg", {}, {}),
+    "cache":  ("StoreMC.cache.cfg", {}, {"CacheKinds": '{"empty", "readerr", "garbage", "complete", "stale", "undeclared"}'}),
     "expiry": ("StoreMC.expiry.cfg", {"Expiries": "{30000}", "CacheKinds": '{"undeclared"}', "Horizon": 31000}, {}),
 }
 
 
 # simulation explores products that are beyond exhaustive reach (more callers)
-SIM_CONSTS = {"reads": {"CallerSet": '{"k1", "k2"}', "CacheKinds": '{"undeclared", "empty", "none"}'}, "lookup": {"CallerSet": '{"k1", "k2", "k3"}'}, "poll": {"CallerSet": '{"k1", "k2"}', "LookupDeadlines": "{0, 10000}",
+SIM_CONSTS = {"cache": {"Acts": '{"newstore", "fail", "refresh", "svc", "lookup", "cachefault", "restart", "close", "tick", "handle", "read"}',
+                        "CacheKinds": '{"empty", "readerr", "garbage", "partial", "complete", "stale", "undeclared"}', "DeclaredSets": '{{"a"}, {"a", "x"}}'},
+              "reads": {"CallerSet": '{"k1", "k2"}', "CacheKinds": '{"undeclared", "empty", "none"}'}, "lookup": {"CallerSet": '{"k1", "k2", "k3"}'}, "poll": {"CallerSet": '{"k1", "k2"}', "LookupDeadlines": "{0, 10000}",
                                                                                                             "Steps": "{1000, 10000}", "Horizon": 30000,
                                                                                                             "Acts": '{"newstore", "fail", "refresh", "svc", "handle", "read", "cachefault", "cancel"}'}}
 
@@ -1207,3 +1210,45 @@ def store_scripts(ctx, fam, n, depth, consts=None, race=False):
     st["steps_applied"] = r["counters"].get("applied", 0)
     st["steps_skipped"] = r["counters"].get("skipped", 0)
     return st
+
+
+# ----------------------------------------------------------------------------- C13
+@check("C13")
+def c13(ctx):
+    th = ctx.thorough
+    os.environ["VERIF_FILECLIENT"] = "1"       # every cache document the store writes is also fed to a real FileClient
+    try:
+        cov = store_check(ctx, ["cache"], ["cache", "init"], 150, 2000,
+                          "Store.tla models the cache as one document rewritten as a whole after the initial fetch (when something was missing), after "
+                          "every lookup, after every poll that changed something and when the poller shuts down; a failing write leaves the old "
+                          "document; only a well-formed document is used at start-up, anything else is ignored as a whole; a successor store starts from "
+                          "whatever the cache holds. TLC checks CacheVersions (after every installing step the document lists exactly the known secrets "
+                          "with their installed versions) and the start-up rules over cache classes x write faults x restarts. Recorded histories of the "
+                          "real store (random, and TLC-simulated behaviours forced on it) are validated incl. the exact payload of every Cache.Write "
+                          "(names, versions, bytes, access stamps), restarts with the service unreachable (the successor must serve exactly the cached "
+                          "pairs without a request), and every written document is fed to a real FileClient which must agree on every secret")
+    finally:
+        os.environ.pop("VERIF_FILECLIENT", None)
+    # malformed cache contents (class known by construction) -> ignored as a whole, validated by TLC as 'garbage'
+    n = 4000 if th else 400
+    results, wd, _ = ctx.godrive("store", "^TestCacheMalformed$", env={"VERIF_TRACES": n}, name="malformed")
+    rm = ctx.take(results, "store-malformed")
+    st = validate_branching(ctx, "StoreTrace", "StoreTrace.cfg", os.path.join(wd, "trace.ndjson"), 16 if th else 8, "store/malformed-cache",
+                            {"dict.ndjson": os.path.join(wd, "dict.ndjson")}, describe=describe_store_event)
+    results, wd2, _ = ctx.godrive("store", "^TestCacheGray$", env={"VERIF_TRACES": 600 if th else 120}, name="gray")
+    rg = ctx.take(results, "store-gray")
+    # the file cache itself: atomic replacement, 0600, old-or-new under kill / injected errors at every system call
+    model = atomicfile_model(ctx)
+    r, ok, nruns = atomicfile_conformance(ctx, ["cachewrite"])
+    cov["malformed_inputs"] = rm["counters"]["inputs"]
+    cov["malformed_validated"] = st["accepted"]
+    cov["gray_inputs"] = rg["counters"]["inputs"]
+    cov["traces_validated_against_impl"] += st["accepted"] + ok
+    cov["filecache_fault_cases"] = r["counters"].get("cases", 0)
+    cov["filecache_syscall_runs_validated"] = ok
+    cov["states"] += model.distinct
+    cov["transitions"] += model.generated
+    return "model_checking", cov, ["malformed = not a well-formed document by construction (truncation, missing/null/mistyped members, empty name, non-object, "
+                                   "trailing or random bytes); inputs whose treatment encoding/json leaves open (duplicate keys, case-variant names, extra "
+                                   "members, overflowing numbers, null) only have to start without panic and serve the cache's or the service's value",
+                                   "SIGKILL models the process dying during FileCache.Write; power loss is decided on AtomicFile.tla given the validated call order"]
